@@ -280,6 +280,7 @@ func checkC17(c *Ctx, r *Report) {
 	r.rule("C17.T2", "per Store method: sentinel errors returnable by both implementations are equal", len(methods))
 	r.rule("C17.T3", "clone exhaustiveness over exported protobuf fields", 4)
 	r.rule("C17.T4", "FetchConsumerOffset not-found value agrees between the stores", 1)
+	r.rule("C17.T6", "an EtcdStore method reports success only after talking to etcd in that call: no success return is reachable without an etcd client operation (a process-local memo answering for etcd diverges from the in-memory store as soon as another writer, a delete or a restart changes etcd)", 8)
 	r.rule("C17.T5", "key and match strings of the metadata package delimit the topic name (C22.R2 re-evaluated): an unterminated prefix or match string makes the etcd store touch keys of sibling topics that the map-keyed in-memory store leaves alone", 5)
 	{
 		sub := newReport("C22")
@@ -295,6 +296,7 @@ func checkC17(c *Ctx, r *Report) {
 		r.unresolved("C17.T1", "metadata.Store interface", "not found")
 		return
 	}
+	checkEtcdAnswersFromEtcd(m, r, methods)
 	for _, name := range methods {
 		mf := m.Func(pkgMetadata, "(*InMemoryStore)."+name)
 		ef := m.Func(pkgMetadata, "(*EtcdStore)."+name)
@@ -682,4 +684,99 @@ func isParamNamed(v ssa.Value, name string) bool {
 		}
 	}
 	return false
+}
+
+
+// checkEtcdAnswersFromEtcd (C17.T6): for every metadata.Store method of *EtcdStore, each return whose
+// error can be the nil constant is reached only through an etcd client operation (directly or in a
+// callee). Methods that are served from the watched snapshot by design are listed with the reason.
+func checkEtcdAnswersFromEtcd(m *Module, r *Report, methods []string) {
+	fromSnapshot := map[string]string{
+		"Metadata": "served from the snapshot the store keeps current by watching etcd (refreshed on demand)",
+	}
+	isEtcdOp := func(n string) bool {
+		if !strings.Contains(n, "go.etcd.io/etcd/client/v3") {
+			return false
+		}
+		for _, suf := range []string{".Get", ".Put", ".Delete", ".Commit", ".Do"} {
+			if strings.HasSuffix(n, suf) {
+				return true
+			}
+		}
+		return false
+	}
+	touches := map[*ssa.Function]bool{}
+	fns := m.FuncsInPkg(pkgMetadata)
+	for changed := true; changed; {
+		changed = false
+		for _, fn := range fns {
+			if touches[fn] {
+				continue
+			}
+			for _, call := range callsIn(fn) {
+				if isEtcdOp(calleeName(call.Common())) {
+					touches[fn] = true
+				} else if g := call.Common().StaticCallee(); g != nil && touches[g] {
+					touches[fn] = true
+				}
+			}
+			if touches[fn] {
+				changed = true
+			}
+		}
+	}
+	pass := func(in ssa.Instruction) bool {
+		ci, ok := in.(ssa.CallInstruction)
+		if !ok {
+			return false
+		}
+		if _, isDefer := in.(*ssa.Defer); isDefer {
+			return false
+		}
+		if isEtcdOp(calleeName(ci.Common())) {
+			return true
+		}
+		g := ci.Common().StaticCallee()
+		return g != nil && touches[g]
+	}
+	for _, name := range methods {
+		ef := m.Func(pkgMetadata, "(*EtcdStore)."+name)
+		if ef == nil {
+			continue
+		}
+		key := "EtcdStore." + name + " reports success only after an etcd operation"
+		if why, ok := fromSnapshot[name]; ok {
+			r.add("C17.T6", key, m.Pos(ef.Pos()), Info, "exempt: "+why)
+			continue
+		}
+		bad := ""
+		n := 0
+		for _, b := range ef.Blocks {
+			ret, ok := b.Instrs[len(b.Instrs)-1].(*ssa.Return)
+			if !ok || len(ret.Results) == 0 {
+				continue
+			}
+			yieldsNil := false
+			for _, o := range origins(ret.Results[len(ret.Results)-1]) {
+				if c, isC := o.(*ssa.Const); isC && c.Value == nil {
+					yieldsNil = true
+				}
+			}
+			if !yieldsNil {
+				continue
+			}
+			n++
+			if ok, path := mustPassBefore(m, ef, ret, pass); !ok {
+				bad = "success at " + m.Pos(ret.Pos()) + " without any etcd operation: " + path
+			}
+		}
+		switch {
+		case bad != "":
+			r.viol("C17.T6", key, m.Pos(ef.Pos()), bad)
+		case n == 0:
+			r.add("C17.T6", key, m.Pos(ef.Pos()), Info, "no constant-nil success return")
+		default:
+			r.ok("C17.T6", key, m.Pos(ef.Pos()), fmt.Sprintf("%d success return(s)", n))
+		}
+	}
 }
